@@ -162,6 +162,10 @@ FT.update({
 })
 
 
+# dict-valued fields whose insertion order is observable in diagnostics
+ORDERED_DICTS = {"TypedDictType": {"items": "the items of a TypedDict are printed in declaration order (reveal_type, error messages)"}}
+
+
 def targets(tier):
     ts = []
     for cls in classes():
@@ -169,5 +173,5 @@ def targets(tier):
         tr.update(TRANSIENT.get(cls.__name__, {}))
         ts.append(CodecTarget(f"codec.types.{cls.__name__}", cls, view=VIEWS.get(cls.__name__), transient=tr, field_types=FT,
                               nested_readers=NESTED_READERS, requires=REQUIRES.get(cls.__name__), construct=cls.__name__ not in LAZY, field_invs=FIELD_INVS,
-                              after_construct=AFTER.get(cls.__name__), init_types=INIT_TYPES))
+                              after_construct=AFTER.get(cls.__name__), init_types=INIT_TYPES, ordered_dicts=ORDERED_DICTS.get(cls.__name__)))
     return ts
